@@ -1,6 +1,7 @@
 //! rvharness — correspondence harness: drives the REAL redis-rust code in-process, writes the
 //! op lines for the Lean model driver and the implementation's canonical answers, and
 //! evaluates each property directly on the implementation (failing-input search).
+mod c05;
 mod c06;
 mod c07;
 mod c08;
@@ -73,6 +74,7 @@ fn main() {
     }
     // the real code logs through `tracing`; keep stdout/stderr quiet
     match prop.as_str() {
+        "C05" => c05::run(&a),
         "C06" => c06::run(&a),
         "C07" => c07::run(&a),
         "C08" => c08::run(&a),
